@@ -138,23 +138,24 @@ class Cycles:
         self.cycle_rxns = [rid for k, rid in enumerate(self.internal) if any(n[k] != 0 for n in self.N)]
         self.idx = idx
 
-    def orientation_feasible(self, orient):
+    def orientation_feasible(self, orient, gmax=None):
         """orient: {rid: +1|-1} on cycle reactions.  Exists g with N g = 0,
-        g_i <= -1 (orient +1), g_i >= 1 (orient -1)?"""
+        g_i <= -1 (orient +1), g_i >= 1 (orient -1)?  gmax: additionally |g_i| <= gmax
+        (the published big-M formulation bounds the energies)."""
         lp = LP()
         g = {}
         for rid in self.cycle_rxns:
             if orient[rid] > 0:
-                g[rid] = lp.add_var(None, -1)
+                g[rid] = lp.add_var(None if gmax is None else -fr(gmax), -1)
             else:
-                g[rid] = lp.add_var(1, None)
+                g[rid] = lp.add_var(1, None if gmax is None else fr(gmax))
         for n in self.N:
             co = {g[rid]: n[self.idx[rid]] for rid in self.cycle_rxns if n[self.idx[rid]] != 0}
             if co:
                 lp.add_row(co, 0, 0)
         return lp.solve({}, "min").status == "optimal"
 
-    def feasible_orientations(self, bounds, limit=7):
+    def feasible_orientations(self, bounds, limit=7, gmax=None):
         """All thermodynamically feasible sign patterns of the cycle reactions that the
         bounds allow.  bounds: {rid: (lb, ub)}.  None if too many cycle reactions."""
         import itertools
@@ -173,7 +174,7 @@ class Cycles:
         out = []
         for combo in itertools.product(*choices):
             o = dict(zip(self.cycle_rxns, combo))
-            if self.orientation_feasible(o):
+            if self.orientation_feasible(o, gmax):
                 out.append(o)
         return out
 
